@@ -44,6 +44,10 @@ func without(l []int, t int) []int {
 }
 
 func (s *qstate) apply(kind string, t int) {
+	if kind == opUnsched { // withdraws the task from both queues, nothing else
+		s.prio, s.norm = without(s.prio, t), without(s.norm, t)
+		return
+	}
 	if kind == opCancel {
 		s.cancelled[t] = true
 		s.prio, s.norm = without(s.prio, t), without(s.norm, t)
@@ -202,6 +206,9 @@ func qStep(state, input, output interface{}) []interface{} {
 	case opCancel:
 		s.prio, s.norm = without(s.prio, in.task), without(s.norm, in.task)
 		s.canc = insertSorted(s.canc, in.task)
+		return []interface{}{s.enc()}
+	case opUnsched:
+		s.prio, s.norm = without(s.prio, in.task), without(s.norm, in.task)
 		return []interface{}{s.enc()}
 	}
 	if idxOf(s.canc, in.task) >= 0 {
